@@ -23,6 +23,7 @@
 package main
 
 import (
+	"bytes"
 	"encoding/json"
 	"fmt"
 	"math/big"
@@ -51,18 +52,21 @@ var one18 = big.NewInt(1e18)
 // ---------------------------------------------------------------- operations
 
 type Op struct {
-	K     string `json:"k"`               // delegate undelegate redelegate withdraw approve transfer transferFrom block mature slash
-	V     int    `json:"v"`               // validator (src for redelegate)
-	W     int    `json:"w,omitempty"`     // dst validator
-	A     int    `json:"a"`               // actor: delegator / owner / sender / spender(transferFrom)
-	B     int    `json:"b,omitempty"`     // spender (approve) / recipient (transfer) / from (transferFrom)
-	C     int    `json:"c,omitempty"`     // recipient (transferFrom)
-	X     string `json:"x,omitempty"`     // amount (tokens for delegate/undelegate/redelegate, whole shares otherwise)
-	Via   string `json:"via,omitempty"`   // "evm" | "msg"
-	Power int64  `json:"power,omitempty"` // slash
-	Frac  string `json:"frac,omitempty"`  // slash fraction, LegacyDec raw integer
-	Must  bool   `json:"must,omitempty"`  // exit phase: has to succeed
-	Setup bool   `json:"setup,omitempty"` // set-up phase (validator operators act)
+	K     string   `json:"k"`               // delegate undelegate redelegate withdraw approve transfer transferFrom block mature slash jail unjail
+	V     int      `json:"v"`               // validator (src for redelegate)
+	W     int      `json:"w,omitempty"`     // dst validator
+	A     int      `json:"a"`               // actor: delegator / owner / sender / spender(transferFrom)
+	B     int      `json:"b,omitempty"`     // spender (approve) / recipient (transfer) / from (transferFrom)
+	C     int      `json:"c,omitempty"`     // recipient (transferFrom)
+	X     string   `json:"x,omitempty"`     // amount (tokens for delegate/undelegate/redelegate, whole shares otherwise)
+	Via   string   `json:"via,omitempty"`   // "evm" | "msg"
+	Power int64    `json:"power,omitempty"` // slash
+	Frac  string   `json:"frac,omitempty"`  // slash fraction, LegacyDec raw integer
+	Back  int64    `json:"back,omitempty"`  // slash: the infraction happened this many blocks ago (0 = now)
+	Ih    int64    `json:"-"`               // slash: the resulting infraction height (filled in when executed)
+	Rs    []string `json:"-"`               // block/mature: rewards allocated to each validator (observed)
+	Must  bool     `json:"must,omitempty"`  // exit phase: has to succeed
+	Setup bool     `json:"setup,omitempty"` // set-up phase (validator operators act)
 }
 
 type History struct {
@@ -85,14 +89,35 @@ type startRec struct {
 	Stake  *big.Int
 	Height uint64
 }
+type histRec struct {
+	Period, Count uint64
+	Ratio         *big.Int
+}
+type slashRec struct {
+	Height, Period uint64
+	Frac           *big.Int
+}
 type VSnap struct {
 	Tokens, Shares *big.Int
+	Status         int // 0 bonded, 1 unbonding, 2 unbonded
+	Jailed         bool
+	Ubh            int64
 	Dels           []kvBig
 	Period         uint64
-	Hist           [][2]uint64
+	Cur, Out       *big.Int
+	Hist           []histRec
 	Start          []startRec
-	Slashes        [][2]uint64
-	Bonded         bool
+	Slashes        []slashRec
+}
+type redRec struct {
+	Del, Src, Dst int
+	H             int64
+	Bal, Sh       *big.Int
+}
+type ubdRec struct {
+	Del, Val  int
+	H         int64
+	Init, Bal *big.Int
 }
 
 func (v VSnap) del(id int) *big.Int {
@@ -117,16 +142,16 @@ func (v VSnap) coq() string {
 		dels = append(dels, lib.Pair(lib.Z(int64(d.ID)), lib.ZBig(d.N)))
 	}
 	for _, h := range v.Hist {
-		hist = append(hist, lib.Pair(lib.ZU(h[0]), lib.ZU(h[1])))
+		hist = append(hist, fmt.Sprintf("(%d, %d, %s)", h.Period, h.Count, lib.ZBig(h.Ratio)))
 	}
 	for _, s := range v.Start {
 		start = append(start, lib.Pair(lib.Z(int64(s.ID)), fmt.Sprintf("mk_si %s %s %s", lib.ZU(s.Prev), lib.ZBig(s.Stake), lib.ZU(s.Height))))
 	}
 	for _, s := range v.Slashes {
-		sl = append(sl, lib.Pair(lib.ZU(s[0]), lib.ZU(s[1])))
+		sl = append(sl, fmt.Sprintf("(%d, %d, %s)", s.Height, s.Period, lib.ZBig(s.Frac)))
 	}
-	return fmt.Sprintf("(mk_v %s %s %s %s %s %s %s)", lib.ZBig(v.Tokens), lib.ZBig(v.Shares), lib.List(dels),
-		lib.ZU(v.Period), lib.List(hist), lib.List(start), lib.List(sl))
+	return fmt.Sprintf("(mk_v %s %s %d %s %d %s %s %s %s %s %s %s)", lib.ZBig(v.Tokens), lib.ZBig(v.Shares), v.Status, lib.Bool(v.Jailed), v.Ubh,
+		lib.List(dels), lib.ZU(v.Period), lib.ZBig(v.Cur), lib.ZBig(v.Out), lib.List(hist), lib.List(start), lib.List(sl))
 }
 
 func (v VSnap) key() string { return v.coq() }
@@ -138,8 +163,9 @@ type allowRec struct {
 type Snap struct {
 	Vals   []VSnap
 	Allow  []allowRec
-	Reds   [][4]int
-	Ubds   [][3]int
+	Reds   []redRec
+	Ubds   []ubdRec
+	Paid   map[int]*big.Int // rewards paid out so far by account (maintained by the harness from balance deltas)
 	Height int64
 }
 
@@ -155,6 +181,9 @@ type World struct {
 	dmsg   distrtypes.MsgServer
 	dq     distrkeeper.Querier
 	selfOK bool // a sender == recipient transfer has been accepted in this history
+
+	valKeys []lib.Key        // operator keys, in the order of w.vals
+	paid    map[int]*big.Int // rewards paid out so far by account (from liquid balance deltas)
 }
 
 const opBase = 100 // ids of the validator operators: 100+i
@@ -163,17 +192,23 @@ const opBase = 100 // ids of the validator operators: 100+i
 // (model.M_Shares.gen_state), the set-up operations are ordinary recorded steps.
 func newWorld(seed int64, nVals, nAcc int) *World {
 	c := lib.NewChain(seed, nVals, nil)
-	w := &World{c: c, accID: map[string]int{}, valID: map[string]int{}}
+	w := &World{c: c, accID: map[string]int{}, valID: map[string]int{}, paid: map[int]*big.Int{}}
 	w.smsg = stakingkeeper.NewMsgServerImpl(c.App.StakingKeeper.Keeper)
 	w.dmsg = distrkeeper.NewMsgServerImpl(c.App.DistrKeeper)
 	w.dq = distrkeeper.NewQuerier(c.App.DistrKeeper)
+	// accounts and validators are numbered in address order: the order in which the staking store
+	// iterates redelegations (src, delegator, dst) is then the order of the ids
 	for i := 0; i < nAcc; i++ {
-		k := lib.EthKey(seed, "c11", i)
-		w.accs = append(w.accs, k)
+		w.accs = append(w.accs, lib.EthKey(seed, "c11", i))
+	}
+	sort.Slice(w.accs, func(a, b int) bool { return bytes.Compare(w.accs[a].Acc(), w.accs[b].Acc()) < 0 })
+	for i, k := range w.accs {
 		w.accID[k.Acc().String()] = i
 		c.Mint(k.Acc(), lib.FX(50_000_000))
 	}
-	for i, k := range c.ValKeys {
+	w.valKeys = append(w.valKeys, c.ValKeys...)
+	sort.Slice(w.valKeys, func(a, b int) bool { return bytes.Compare(w.valKeys[a].Val(), w.valKeys[b].Val()) < 0 })
+	for i, k := range w.valKeys {
 		w.vals = append(w.vals, k.Val())
 		w.valID[k.Val().String()] = i
 		w.accID[k.Acc().String()] = opBase + i
@@ -191,14 +226,37 @@ func setupOps(nVals int) []Op {
 	return append(ops, Op{K: "block", X: "1000000000000000000"})
 }
 
+func decRaw(d sdk.DecCoins) *big.Int {
+	if len(d) > 1 || len(d) == 1 && d[0].Denom != fxtypes.DefaultDenom {
+		panic("reward coins in an unexpected denom: " + d.String())
+	}
+	return d.AmountOf(fxtypes.DefaultDenom).BigInt()
+}
+
 func (w *World) snap(ctx sdk.Context) Snap {
 	c := w.c
-	s := Snap{Height: ctx.BlockHeight()}
+	s := Snap{Height: ctx.BlockHeight(), Paid: map[int]*big.Int{}}
+	for k, v := range w.paid {
+		if v.Sign() != 0 {
+			s.Paid[k] = new(big.Int).Set(v)
+		}
+	}
 	s.Vals = make([]VSnap, len(w.vals))
 	for i, va := range w.vals {
 		v, err := c.App.StakingKeeper.GetValidator(ctx, va)
 		lib.Must(err)
-		vs := VSnap{Tokens: v.Tokens.BigInt(), Shares: v.DelegatorShares.BigInt(), Bonded: v.IsBonded() && !v.Jailed}
+		vs := VSnap{Tokens: v.Tokens.BigInt(), Shares: v.DelegatorShares.BigInt(), Jailed: v.Jailed, Ubh: v.UnbondingHeight}
+		switch {
+		case v.IsBonded():
+			vs.Status = 0
+		case v.IsUnbonding():
+			vs.Status = 1
+		default:
+			vs.Status = 2
+		}
+		if !v.Commission.Rate.IsZero() {
+			panic("the model assumes commission rate 0")
+		}
 		dels, err := c.App.StakingKeeper.GetValidatorDelegations(ctx, va)
 		lib.Must(err)
 		for _, d := range dels {
@@ -213,11 +271,15 @@ func (w *World) snap(ctx sdk.Context) Snap {
 		cur, err := c.App.DistrKeeper.GetValidatorCurrentRewards(ctx, va)
 		lib.Must(err)
 		vs.Period = cur.Period
+		vs.Cur = decRaw(cur.Rewards)
+		out, err := c.App.DistrKeeper.GetValidatorOutstandingRewards(ctx, va)
+		lib.Must(err)
+		vs.Out = decRaw(out.Rewards)
 		s.Vals[i] = vs
 	}
 	c.App.DistrKeeper.IterateValidatorHistoricalRewards(ctx, func(val sdk.ValAddress, period uint64, r distrtypes.ValidatorHistoricalRewards) bool {
 		if i, ok := w.valID[val.String()]; ok {
-			s.Vals[i].Hist = append(s.Vals[i].Hist, [2]uint64{period, uint64(r.ReferenceCount)})
+			s.Vals[i].Hist = append(s.Vals[i].Hist, histRec{period, uint64(r.ReferenceCount), decRaw(r.CumulativeRewardRatio)})
 		}
 		return false
 	})
@@ -239,19 +301,19 @@ func (w *World) snap(ctx sdk.Context) Snap {
 	})
 	c.App.DistrKeeper.IterateValidatorSlashEvents(ctx, func(val sdk.ValAddress, height uint64, ev distrtypes.ValidatorSlashEvent) bool {
 		if i, ok := w.valID[val.String()]; ok {
-			s.Vals[i].Slashes = append(s.Vals[i].Slashes, [2]uint64{height, ev.ValidatorPeriod})
+			s.Vals[i].Slashes = append(s.Vals[i].Slashes, slashRec{height, ev.ValidatorPeriod, ev.Fraction.BigInt()})
 		}
 		return false
 	})
 	for i := range s.Vals {
 		v := &s.Vals[i]
-		sort.Slice(v.Hist, func(a, b int) bool { return v.Hist[a][0] < v.Hist[b][0] })
+		sort.Slice(v.Hist, func(a, b int) bool { return v.Hist[a].Period < v.Hist[b].Period })
 		sort.Slice(v.Start, func(a, b int) bool { return v.Start[a].ID < v.Start[b].ID })
-		sort.Slice(v.Slashes, func(a, b int) bool {
-			if v.Slashes[a][0] != v.Slashes[b][0] {
-				return v.Slashes[a][0] < v.Slashes[b][0]
+		sort.SliceStable(v.Slashes, func(a, b int) bool {
+			if v.Slashes[a].Height != v.Slashes[b].Height {
+				return v.Slashes[a].Height < v.Slashes[b].Height
 			}
-			return v.Slashes[a][1] < v.Slashes[b][1]
+			return v.Slashes[a].Period < v.Slashes[b].Period
 		})
 	}
 	c.App.StakingKeeper.IterateAllAllowance(ctx, func(val sdk.ValAddress, owner, spender sdk.AccAddress, al *big.Int) bool {
@@ -279,17 +341,29 @@ func (w *World) snap(ctx sdk.Context) Snap {
 	})
 	lib.Must(c.App.StakingKeeper.IterateRedelegations(ctx, func(_ int64, red stakingtypes.Redelegation) bool {
 		d := w.accID[sdk.MustAccAddressFromBech32(red.DelegatorAddress).String()]
-		s.Reds = append(s.Reds, [4]int{d, w.valID[red.ValidatorSrcAddress], w.valID[red.ValidatorDstAddress], len(red.Entries)})
+		for _, e := range red.Entries {
+			s.Reds = append(s.Reds, redRec{d, w.valID[red.ValidatorSrcAddress], w.valID[red.ValidatorDstAddress], e.CreationHeight, e.InitialBalance.BigInt(), e.SharesDst.BigInt()})
+		}
 		return false
 	}))
 	lib.Must(c.App.StakingKeeper.IterateUnbondingDelegations(ctx, func(_ int64, u stakingtypes.UnbondingDelegation) bool {
 		d := w.accID[sdk.MustAccAddressFromBech32(u.DelegatorAddress).String()]
-		s.Ubds = append(s.Ubds, [3]int{d, w.valID[u.ValidatorAddress], len(u.Entries)})
+		for _, e := range u.Entries {
+			s.Ubds = append(s.Ubds, ubdRec{d, w.valID[u.ValidatorAddress], e.CreationHeight, e.InitialBalance.BigInt(), e.Balance.BigInt()})
+		}
 		return false
 	}))
-	sort.Slice(s.Reds, func(a, b int) bool { return fmt.Sprint(s.Reds[a]) < fmt.Sprint(s.Reds[b]) })
-	sort.Slice(s.Ubds, func(a, b int) bool { return fmt.Sprint(s.Ubds[a]) < fmt.Sprint(s.Ubds[b]) })
 	return s
+}
+
+func (s Snap) nReds(d, src, dst int) int {
+	n := 0
+	for _, r := range s.Reds {
+		if r.Del == d && (src < 0 || r.Src == src) && r.Dst == dst {
+			n++
+		}
+	}
+	return n
 }
 
 // digest: the fingerprint model.M_SharesCorr.digest computes over the model state, here over the
@@ -320,14 +394,21 @@ func hmix(l []*big.Int) *big.Int {
 func bi(n int) *big.Int    { return big.NewInt(int64(n)) }
 func bu(n uint64) *big.Int { return new(big.Int).SetUint64(n) }
 
+func b2i(b bool) *big.Int {
+	if b {
+		return big.NewInt(1)
+	}
+	return big.NewInt(0)
+}
+
 func (v VSnap) ser() []*big.Int {
-	l := []*big.Int{v.Tokens, v.Shares, bi(len(v.Dels))}
+	l := []*big.Int{v.Tokens, v.Shares, bi(v.Status), b2i(v.Jailed), big.NewInt(v.Ubh), bi(len(v.Dels))}
 	for _, d := range v.Dels {
 		l = append(l, bi(d.ID), d.N)
 	}
-	l = append(l, bu(v.Period), bi(len(v.Hist)))
+	l = append(l, bu(v.Period), v.Cur, v.Out, bi(len(v.Hist)))
 	for _, h := range v.Hist {
-		l = append(l, bu(h[0]), bu(h[1]))
+		l = append(l, bu(h.Period), bu(h.Count), h.Ratio)
 	}
 	l = append(l, bi(len(v.Start)))
 	for _, st := range v.Start {
@@ -335,7 +416,7 @@ func (v VSnap) ser() []*big.Int {
 	}
 	l = append(l, bi(len(v.Slashes)))
 	for _, sl := range v.Slashes {
-		l = append(l, bu(sl[0]), bu(sl[1]))
+		l = append(l, bu(sl.Height), bu(sl.Period), sl.Frac)
 	}
 	return l
 }
@@ -346,20 +427,24 @@ func (s Snap) digest() *big.Int {
 		l = append(l, v.ser()...)
 	}
 	hv := hmix(l)
-	ha, hr, hu := big.NewInt(0), big.NewInt(0), big.NewInt(0)
+	ha, hr, hu, hp := big.NewInt(0), big.NewInt(0), big.NewInt(0), big.NewInt(0)
 	for _, a := range s.Allow {
 		ha.Add(ha, hmix([]*big.Int{bi(a.V), bi(a.Owner), bi(a.Spender), a.N}))
 		ha.And(ha, hM)
 	}
 	for _, x := range s.Reds {
-		hr.Add(hr, new(big.Int).Mul(bi(x[3]), hmix([]*big.Int{bi(x[0]), bi(x[1]), bi(x[2])})))
+		hr.Add(hr, hmix([]*big.Int{bi(x.Del), bi(x.Src), bi(x.Dst), big.NewInt(x.H), x.Bal, x.Sh}))
 		hr.And(hr, hM)
 	}
 	for _, x := range s.Ubds {
-		hu.Add(hu, new(big.Int).Mul(bi(x[2]), hmix([]*big.Int{bi(x[0]), bi(x[1])})))
+		hu.Add(hu, hmix([]*big.Int{bi(x.Del), bi(x.Val), big.NewInt(x.H), x.Init, x.Bal}))
 		hu.And(hu, hM)
 	}
-	return hmix([]*big.Int{hv, ha, hr, hu})
+	for id, n := range s.Paid {
+		hp.Add(hp, hmix([]*big.Int{bi(id), n}))
+		hp.And(hp, hM)
+	}
+	return hmix([]*big.Int{hv, ha, hr, hu, hp})
 }
 
 func (s Snap) allowance(v, owner, spender int) *big.Int {
@@ -373,7 +458,7 @@ func (s Snap) allowance(v, owner, spender int) *big.Int {
 
 func (w *World) key(id int) lib.Key {
 	if id >= opBase {
-		return w.c.ValKeys[id-opBase]
+		return w.valKeys[id-opBase]
 	}
 	return w.accs[id]
 }
@@ -443,7 +528,7 @@ func (w *World) validOp(o Op) bool {
 		return false
 	}
 	switch o.K {
-	case "slash":
+	case "slash", "jail", "unjail":
 		return true
 	case "redelegate":
 		return o.W >= 0 && o.W < nv && okAcc(o.A)
@@ -455,7 +540,7 @@ func (w *World) validOp(o Op) bool {
 	return okAcc(o.A)
 }
 
-func (w *World) apply(o Op) error {
+func (w *World) apply(o *Op) error {
 	c := w.c
 	val := func(i int) string { return w.vals[i].String() }
 	switch o.K {
@@ -501,15 +586,38 @@ func (w *World) apply(o Op) error {
 		return w.evm(o.A, "transferShares", val(o.V), w.key(o.B).Hex(), bigOf(o.X))
 	case "transferFrom":
 		return w.evm(o.A, "transferFromShares", val(o.V), w.key(o.B).Hex(), w.key(o.C).Hex(), bigOf(o.X))
-	case "block":
-		// fees for the next block's reward allocation
-		fee := sdk.NewCoins(sdk.NewCoin(fxtypes.DefaultDenom, sdkmath.NewIntFromBigInt(bigOf(o.X))))
-		lib.Must(c.App.BankKeeper.MintCoins(c.Ctx, "mint", fee))
-		lib.Must(c.App.BankKeeper.SendCoinsFromModuleToModule(c.Ctx, "mint", authtypes.FeeCollectorName, fee))
-		return c.NextBlock()
-	case "mature":
-		return c.NextBlockAfter(21*24*time.Hour + time.Minute)
+	case "block", "mature":
+		// fees for this block's reward allocation (distribution BeginBlocker)
+		if o.X != "" && o.X != "0" {
+			fee := sdk.NewCoins(sdk.NewCoin(fxtypes.DefaultDenom, sdkmath.NewIntFromBigInt(bigOf(o.X))))
+			lib.Must(c.App.BankKeeper.MintCoins(c.Ctx, "mint", fee))
+			lib.Must(c.App.BankKeeper.SendCoinsFromModuleToModule(c.Ctx, "mint", authtypes.FeeCollectorName, fee))
+		}
+		curBefore := make([]*big.Int, len(w.vals))
+		for i, va := range w.vals {
+			cur, err := c.App.DistrKeeper.GetValidatorCurrentRewards(c.Ctx, va)
+			lib.Must(err)
+			curBefore[i] = decRaw(cur.Rewards)
+		}
+		var err error
+		if o.K == "mature" {
+			err = c.NextBlockAfter(21*24*time.Hour + time.Minute)
+		} else {
+			err = c.NextBlock()
+		}
+		if err != nil {
+			return err
+		}
+		// what AllocateTokens gave each validator (input of the model's Block operation)
+		o.Rs = nil
+		for i, va := range w.vals {
+			cur, err := c.App.DistrKeeper.GetValidatorCurrentRewards(c.Ctx, va)
+			lib.Must(err)
+			o.Rs = append(o.Rs, new(big.Int).Sub(decRaw(cur.Rewards), curBefore[i]).String())
+		}
+		return nil
 	case "slash":
+		o.Ih = c.Ctx.BlockHeight() - o.Back
 		return c.Try(func(ctx sdk.Context) error {
 			v, err := c.App.StakingKeeper.GetValidator(ctx, w.vals[o.V])
 			if err != nil {
@@ -519,8 +627,23 @@ func (w *World) apply(o Op) error {
 			if err != nil {
 				return err
 			}
-			_, err = c.App.StakingKeeper.Slash(ctx, cons, ctx.BlockHeight(), o.Power, sdkmath.LegacyNewDecFromBigIntWithPrec(bigOf(o.Frac), 18))
+			_, err = c.App.StakingKeeper.Slash(ctx, cons, o.Ih, o.Power, sdkmath.LegacyNewDecFromBigIntWithPrec(bigOf(o.Frac), 18))
 			return err
+		})
+	case "jail", "unjail":
+		return c.Try(func(ctx sdk.Context) error {
+			v, err := c.App.StakingKeeper.GetValidator(ctx, w.vals[o.V])
+			if err != nil {
+				return err
+			}
+			cons, err := v.GetConsAddr()
+			if err != nil {
+				return err
+			}
+			if o.K == "jail" {
+				return c.App.StakingKeeper.Jail(ctx, cons)
+			}
+			return c.App.StakingKeeper.Unjail(ctx, cons)
 		})
 	}
 	panic("unknown op " + o.K)
@@ -544,11 +667,15 @@ func (o Op) coq() string {
 	case "transferFrom":
 		return fmt.Sprintf("TransferFrom %s %s %s %s %s", z(o.V), z(o.A), z(o.B), z(o.C), o.X)
 	case "block":
-		return "Block"
+		return "Block " + lib.List(o.Rs)
 	case "mature":
-		return "Mature"
+		return "Mature " + lib.List(o.Rs)
 	case "slash":
-		return fmt.Sprintf("SlashVal %s %d %s", z(o.V), o.Power, o.Frac)
+		return fmt.Sprintf("SlashVal %s %s %d %s", z(o.V), lib.Z(o.Ih), o.Power, o.Frac)
+	case "jail":
+		return "Jail " + z(o.V)
+	case "unjail":
+		return "Unjail " + z(o.V)
 	}
 	panic("unknown op")
 }
@@ -557,6 +684,10 @@ func (o Op) touched() []int {
 	switch o.K {
 	case "block", "mature":
 		return nil
+	case "slash":
+		if o.Back > 0 {
+			return []int{0, 1} // redelegation destinations change too; the final records cover validator 2
+		}
 	case "redelegate":
 		if o.V == o.W {
 			return []int{o.V}
@@ -612,8 +743,8 @@ func (w *World) monitor(o Op, before, after Snap, balBefore map[int]*big.Int, pe
 			}
 		}
 		for _, h := range v.Hist {
-			if h[1] > 2 {
-				add("refcount-gt-2", "validator %d: historical rewards of period %d have reference count %d", i, h[0], h[1])
+			if h.Count > 2 {
+				add("refcount-gt-2", "validator %d: historical rewards of period %d have reference count %d", i, h.Period, h.Count)
 			}
 		}
 	}
@@ -638,10 +769,8 @@ func (w *World) monitor(o Op, before, after Snap, balBefore map[int]*big.Int, pe
 		x := bigOf(o.X)
 		// (refusing sender == recipient is a legitimate way of "changing nothing")
 		okPre := from != to && x.Sign() > 0 && before.Vals[o.V].del(from).Cmp(new(big.Int).Mul(x, one18)) >= 0
-		for _, rd := range before.Reds {
-			if rd[0] == from && rd[2] == o.V {
-				okPre = false
-			}
+		if before.nReds(from, -1, o.V) > 0 {
+			okPre = false
 		}
 		if spender >= 0 && before.allowance(o.V, from, spender).Cmp(x) < 0 {
 			okPre = false
@@ -661,10 +790,8 @@ func (w *World) monitor(o Op, before, after Snap, balBefore map[int]*big.Int, pe
 		if bv.Tokens.Cmp(av.Tokens) != 0 || bv.Shares.Cmp(av.Shares) != 0 {
 			add("transfer-validator", "transfer changed the validator: tokens %s -> %s, shares %s -> %s", bv.Tokens, av.Tokens, bv.Shares, av.Shares)
 		}
-		for _, rd := range before.Reds {
-			if rd[0] == from && rd[2] == o.V {
-				add("transfer-with-incoming-redelegation", "transfer accepted while sender %d has an incoming redelegation on validator %d", from, o.V)
-			}
+		if before.nReds(from, -1, o.V) > 0 {
+			add("transfer-with-incoming-redelegation", "transfer accepted while sender %d has an incoming redelegation on validator %d", from, o.V)
 		}
 		if from == to {
 			// an accepted transfer to oneself has to leave every delegation as it was
@@ -951,18 +1078,39 @@ func (w *World) gen(r *lib.Rand, s Snap, self bool) Op {
 			}
 		}
 		return Op{K: "transferFrom", V: v, A: sp, B: from, C: to, X: x.String()}
-	case p < 95:
+	case p < 93:
 		fee := new(big.Int).Mul(big.NewInt(int64(1+r.Intn(2000))), big.NewInt(1e15))
 		fee.Add(fee, big.NewInt(int64(r.Intn(1000))))
 		return Op{K: "block", X: fee.String()}
-	case p < 96:
-		return Op{K: "mature"}
-	default:
+	case p < 94:
+		return Op{K: "mature", X: "1000000000000000000"}
+	case p < 98:
 		pw := new(big.Int).Quo(s.Vals[v].Tokens, new(big.Int).Mul(big.NewInt(100), one18)).Int64()
 		if r.Chance(30) {
 			pw = int64(1 + r.Intn(50))
 		}
-		return Op{K: "slash", V: v, Power: pw, Frac: fracs[r.Intn(len(fracs))]}
+		back := int64(0)
+		if r.Chance(45) {
+			back = int64(1 + r.Intn(4)) // infraction a few blocks ago: unbonding and redelegation entries since then are slashed too
+		}
+		return Op{K: "slash", V: v, Power: pw, Frac: fracs[r.Intn(len(fracs))], Back: back}
+	default:
+		// jail a validator (it leaves the bonded set at the end of the block) while another one stays; or bring one back
+		var jailed, free []int
+		for i, x := range s.Vals {
+			if x.Jailed {
+				jailed = append(jailed, i)
+			} else {
+				free = append(free, i)
+			}
+		}
+		if len(jailed) > 0 && (len(free) < 2 || r.Chance(50)) {
+			return Op{K: "unjail", V: jailed[r.Intn(len(jailed))]}
+		}
+		if len(free) >= 2 {
+			return Op{K: "jail", V: free[r.Intn(len(free))]}
+		}
+		return Op{K: "jail", V: v} // refused or not, the model has to agree
 	}
 }
 
@@ -1018,6 +1166,7 @@ type result struct {
 	nOK      map[string]int
 	selfSeen bool
 	harness  string
+	stats    map[string]int
 
 	endBalances []*big.Int
 }
@@ -1026,20 +1175,13 @@ func coqObs(o Op, ok bool, s Snap, full bool) string {
 	if !full {
 		return fmt.Sprintf("mk_obs_d %s %s %d", lib.Bool(ok), s.digest(), s.Height)
 	}
-	var vals, allow, reds, ubds []string
+	var vals []string
 	for _, i := range o.touched() {
-		vals = append(vals, lib.Pair(lib.Z(int64(i)), s.Vals[i].coq()))
+		if i < len(s.Vals) {
+			vals = append(vals, lib.Pair(lib.Z(int64(i)), s.Vals[i].coq()))
+		}
 	}
-	for _, a := range s.Allow {
-		allow = append(allow, lib.Pair(fmt.Sprintf("(%d, %d, %d)", a.V, a.Owner, a.Spender), lib.ZBig(a.N)))
-	}
-	for _, x := range s.Reds {
-		reds = append(reds, fmt.Sprintf("(%d, %d, %d, %d)", x[0], x[1], x[2], x[3]))
-	}
-	for _, x := range s.Ubds {
-		ubds = append(ubds, fmt.Sprintf("(%d, %d, %d)", x[0], x[1], x[2]))
-	}
-	return fmt.Sprintf("mk_obs %s %s %s %s %s %s %d", lib.Bool(ok), s.digest(), lib.List(vals), lib.List(allow), lib.List(reds), lib.List(ubds), s.Height)
+	return fmt.Sprintf("mk_obs %s %s %s %d", lib.Bool(ok), s.digest(), lib.List(vals), s.Height)
 }
 
 func (res *result) coqCase(full bool) string {
@@ -1061,7 +1203,7 @@ func (res *result) coqCase(full bool) string {
 // then the exit phase); with r == nil h.Ops is replayed.
 func runHistory(h History, r *lib.Rand, n int) *result {
 	w := newWorld(h.Seed, h.NVals, h.NAcc)
-	res := &result{h: h, nOK: map[string]int{}, failAt: -1}
+	res := &result{h: h, nOK: map[string]int{}, failAt: -1, stats: map[string]int{}}
 	res.init = w.snap(w.c.Ctx)
 	cur := res.init
 	self := h.Stream == "self"
@@ -1121,7 +1263,33 @@ func runHistory(h History, r *lib.Rand, n int) *result {
 				pend[id] = w.pending(id, o.V)
 			}
 		}
-		err := w.apply(o)
+		// liquid balances of everybody: their change is what the operation paid out as rewards
+		allIDs := []int{}
+		for i := range w.accs {
+			allIDs = append(allIDs, i)
+		}
+		for i := range w.vals {
+			allIDs = append(allIDs, opBase+i)
+		}
+		balAll := map[int]*big.Int{}
+		for _, id := range allIDs {
+			balAll[id] = w.balance(w.c.Ctx, id)
+		}
+		err := w.apply(&o)
+		if err == nil && o.K != "block" && o.K != "mature" {
+			for _, id := range allIDs {
+				d := new(big.Int).Sub(w.balance(w.c.Ctx, id), balAll[id])
+				if o.K == "delegate" && id == o.A {
+					d.Add(d, bigOf(o.X)) // the delegated coins left the account
+				}
+				if d.Sign() != 0 {
+					if w.paid[id] == nil {
+						w.paid[id] = big.NewInt(0)
+					}
+					w.paid[id].Add(w.paid[id], d)
+				}
+			}
+		}
 		if (o.K == "block" || o.K == "mature") && err != nil {
 			res.fails = append(res.fails, monFail{"block-failed", "block processing failed: " + oneLine(err.Error())})
 			res.failAt = step
@@ -1137,13 +1305,40 @@ func runHistory(h History, r *lib.Rand, n int) *result {
 			}
 		}
 		res.steps = append(res.steps, stepRec{o, ok, after})
-		for i, v := range after.Vals {
-			if !v.Bonded {
-				res.harness = fmt.Sprintf("validator %d left the bonded set (outside the modelled schedule)", i)
+		if ok {
+			switch o.K {
+			case "slash":
+				if o.Back > 0 {
+					res.stats["slash:past"]++
+					n := 0
+					for _, e := range cur.Reds {
+						if e.Src == o.V && e.H >= o.Ih {
+							n++
+						}
+					}
+					for _, e := range cur.Ubds {
+						if e.Val == o.V && e.H >= o.Ih {
+							n++
+						}
+					}
+					if n > 0 {
+						res.stats["slash:past:entries-in-reach"]++
+					}
+				} else {
+					res.stats["slash:now"]++
+				}
+			case "transfer", "transferFrom":
+				if cur.Vals[o.V].Status != 0 {
+					res.stats["transfer:on-unbonding-or-unbonded-validator"]++
+				}
+				if len(cur.Vals[o.V].Slashes) > 0 {
+					res.stats["transfer:on-slashed-validator"]++
+				}
+			case "redelegate":
+				if cur.Vals[o.V].Status != 0 {
+					res.stats["redelegate:from-unbonding-or-unbonded-validator"]++
+				}
 			}
-		}
-		if res.harness != "" {
-			break
 		}
 		if fs := w.monitor(o, cur, after, bal, pend, err); len(fs) > 0 {
 			res.fails = append(res.fails, fs...)
@@ -1170,7 +1365,7 @@ func main() {
 	seed := lib.Seed()
 	mode := os.Getenv("VERIF_MODE")
 	rep := lib.NewReport("C11")
-	rep.Rule = "histories of delegate/undelegate/redelegate/withdraw/approve/transfer/transferFrom among 3-5 EOAs on 2-3 validators through the real staking precompile (30% of delegate/undelegate/redelegate/withdraw through the SDK msg servers), interleaved with fee-carrying blocks, slashing and one unbonding-time jump, closed by 'everyone withdraws and undelegates'; amounts biased to full/partial/over-limit values and exact allowances; stream noself never has sender == recipient, stream self has it in ~25% of transfers; one evaluation = one history; non-trivial = at least one accepted transfer or transferFrom and at least one reward block and the exit phase reached; distinct by full op list"
+	rep.Rule = "histories of delegate/undelegate/redelegate/withdraw/approve/transfer/transferFrom among 3-5 EOAs on 2-3 validators through the real staking precompile (30% of delegate/undelegate/redelegate/withdraw through the SDK msg servers), interleaved with fee-carrying blocks (the per-validator reward allocation is observed and fed to the model), slashing for the current and for past infraction heights, jailing/unjailing (validators leave and re-enter the bonded set) and unbonding-time jumps, closed by 'everyone withdraws and undelegates'; amounts biased to full/partial/over-limit values and exact allowances; stream noself never has sender == recipient, stream self has it in ~25% of transfers; one evaluation = one history; non-trivial = at least one accepted transfer or transferFrom and at least one reward block and the exit phase reached; distinct by full op list"
 
 	if mode == "replay" {
 		b, err := os.ReadFile(os.Getenv("VERIF_REPLAY"))
@@ -1195,9 +1390,9 @@ func main() {
 		return
 	}
 
-	nNoSelf, nSelf, nOps, nFull = 36, 10, 45, 3
+	nNoSelf, nSelf, nOps, nFull = 30, 8, 45, 2
 	if lib.Tier() == "thorough" || mode == "search" {
-		nNoSelf, nSelf, nOps, nFull = 300, 40, 60, 6
+		nNoSelf, nSelf, nOps, nFull = 260, 40, 60, 6
 	}
 	if v := lib.EnvInt("VERIF_N", 0); v > 0 {
 		nNoSelf = int(v)
@@ -1231,6 +1426,11 @@ func main() {
 			rep.Count("op=" + st.op.K + ":" + acc)
 		}
 		rep.Count(fmt.Sprintf("history_len=%d0s", len(res.steps)/10))
+		for k, n := range res.stats {
+			for i := 0; i < n; i++ {
+				rep.Count(k)
+			}
+		}
 		if res.harness != "" {
 			rep.Fail(lib.Failure{Kind: "harness", What: res.harness, Sig: "C11:harness", Replay: h})
 			return
